@@ -442,5 +442,38 @@ theorem collect_empty_set_panics (sets : List (List α)) (h : [] ∈ sets) (fuel
 
 end iterator
 
+/-! ### the closed form: length, no repetition, completeness, order -/
+
+theorem pos_of_prod_pos : ∀ (ns : List Nat), 0 < prod ns → ∀ n ∈ ns, 0 < n
+  | [], _ => by simp
+  | n :: ns, h => by
+    simp only [prod] at h
+    have h1 : 0 < n := Nat.pos_of_mul_pos_right h
+    have h2 : 0 < prod ns := Nat.pos_of_mul_pos_left h
+    intro m hm
+    rcases List.mem_cons.mp hm with rfl | hm
+    · exact h1
+    · exact pos_of_prod_pos ns h2 m hm
+
+theorem combos_length (ns : List Nat) : (combos ns).length = prod ns := by simp [combos]
+
+theorem combos_getElem? (ns : List Nat) (k : Nat) (h : k < prod ns) :
+    (combos ns)[k]? = some (digits ns k) := by
+  simp [combos, List.getElem?_range h]
+
+theorem mem_combos (ns c : List Nat) : c ∈ combos ns ↔ inRange ns c = true := by
+  constructor
+  · intro h
+    obtain ⟨k, hk, rfl⟩ := List.mem_map.mp h
+    have hk' : k < prod ns := List.mem_range.mp hk
+    exact inRange_digits ns k (pos_of_prod_pos ns (by omega))
+  · intro h
+    exact List.mem_map.mpr ⟨val ns c, List.mem_range.mpr (val_lt ns c h), digits_val ns c h⟩
+
+theorem combos_nodup (ns : List Nat) : (combos ns).Nodup := by
+  refine List.Nodup.map_on ?_ List.nodup_range
+  intro x hx y hy hxy
+  rw [← val_digits ns x (List.mem_range.mp hx), ← val_digits ns y (List.mem_range.mp hy), hxy]
+
 end MultiSet
 end Compass
